@@ -141,6 +141,9 @@ def expected_types(spec, unions=True):
         plain = [c['name'] for c in spec['classes'] if c.get('registered', True) and c.get('kind', 'plain') == 'plain']
         for a, b in itertools.combinations(plain, 2):
             out.append([('union', (('cls', a), ('cls', b))), ('union', (('cls', b), ('cls', a)))])
+        # a class next to a built-in member that matches the same nodes: only a tag can tell them apart
+        for other in (('dict', 'str', 'int'), 'any'):
+            out.append([('union', (root, other)), ('union', (other, root))])
     elif root[0] == 'union':
         out = [[('union', tuple(p)) for p in itertools.permutations(root[1])]]
     elif root[0] == 'list' and root[1][0] == 'union':
@@ -172,6 +175,10 @@ def run_unit(unit, tier):
     unreg = {c['name'] for c in spec['classes'] if not c.get('registered', True)}
     abstract = {c['name'] for c in spec['classes'] if c.get('abstract')}
     tags = [None] + ['!' + c['name'] for c in spec['classes']] + ['!Unknown']
+    if not fam.startswith('enum-union'):
+        # core tags that contradict the node ("a tag naming an incompatible ... class makes the load fail") and the one
+        # that says what the node is anyway
+        tags += ['!!int', '!!str', '!!null', '!!seq', '!!map']
     trees = docs_for(spec)
     perms = list(itertools.permutations(range(len(b.registered))))
     loads = {}
